@@ -13,6 +13,7 @@
   well-formed data file is `encStore S` for a record-level store `S` with `WFStore S`.
 -/
 import Proofs.RecoverDamage
+import ZodbModel.Generated
 namespace Props.C17
 open ZodbModel ZodbModel.Copy ZodbModel.Recover Proofs.Copy Proofs.Recover
 
@@ -261,5 +262,15 @@ theorem damaged_pickle_is_copied :
     recoverOut ((encStore exS).set 190 81) =
       some [exSrc[0], ⟨2, 32, [], [100], [], [⟨1, 2, some [81, 46], none⟩]⟩, exSrc[2]] := by
   decide +kernel
+
+/-! ## tie to the constants translated from /repo's source on every run -/
+
+/-- the header lengths the byte-level model hard-wires (23-byte transaction header, 42-byte data
+    header) are the ones `ZODB.FileStorage.format` declares (`none` = pattern not found: vacuous,
+    the harness checks the struct formats, the magic and `scan`'s 8096 / '.' itself) -/
+theorem tie_header_lengths :
+    (match Generated.transHdrLen with | some v => v == 23 | none => true) = true ∧
+    (match Generated.dataHdrLen with | some v => v == 42 | none => true) = true ∧
+    hdrLen ⟨0, 32, [], [], [], []⟩ = 23 ∧ recLen ⟨0, 0, none, .uncreate⟩ = 42 + 8 := by decide
 
 end Props.C17
